@@ -325,7 +325,7 @@ pub fn gen_onchain_case(rng: &mut Rng) -> Vec<String> {
             "cp" => {
                 let n = nc;
                 let cm = gen_commit(rng, &mut plan, n, false, false);
-                ops.push(cm.cp_line(0));
+                ops.push(cm.cp_line(2 * rng.chance(1, 3) as u64));
                 if n <= nr + 1 && gate_ok(&sim, n, &pol) { nc += 1; cur_cp = Some(cm) }
             }
             "cpretry" => if let Some(cm) = &cur_cp {
@@ -336,7 +336,7 @@ pub fn gen_onchain_case(rng: &mut Rng) -> Vec<String> {
             "hold" => {
                 let n = nh;
                 let cm = gen_commit(rng, &mut plan, n, false, false);
-                ops.push(cm.hold_line(true));
+                ops.push(cm.hold_line_x(true, rng.chance(1, 3)));
                 if gate_ok(&sim, n, &pol) { pending = Some(cm) }
             }
             "holdagain" => if let Some(cm) = &pending { ops.push(cm.hold_line(true)) },
@@ -497,7 +497,7 @@ impl Group for C05 {
                     };
                     let cm = gen_commit(rng, &mut plan, n, mutate, tune);
                     if plan.pol.line() != pol_before { body.push(plan.pol.line()) }
-                    let pv = if rng.chance(1, 15) { 1 } else { 0 };
+                    let pv = (if rng.chance(1, 15) { 1 } else { 0 }) + 2 * rng.chance(1, 3) as u64;
                     body.push(cm.cp_line(pv));
                     if rng.chance(1, 6) {
                         // retry, same or slightly changed content
@@ -517,7 +517,7 @@ impl Group for C05 {
                     };
                     let cm = gen_commit(rng, &mut plan, n, mutate, tune);
                     if plan.pol.line() != pol_before { body.push(plan.pol.line()) }
-                    body.push(cm.hold_line(!rng.chance(1, 12)));
+                    body.push(cm.hold_line_x(!rng.chance(1, 12), rng.chance(1, 3)));
                     if n == nh && !mutate { pending = true }
                     if rng.chance(1, 8) { body.push(cm.hold_line(true)) }
                 }
